@@ -299,7 +299,8 @@ def run_task(task):
         verr = [z3.Bool('version_error_f%d' % k) for k in range(NF)]
         for k, v in enumerate(verr):
             h.inputs['version_error_f%d' % k] = v
-            if tier_of(task) != 'thorough' and k != max(task['first'], 0): base.append(z3.Not(v))
+            # the version check of the first named file may fail in every task; of the other files only in the thorough single-input tasks
+            if k != max(task['first'], 0) and not (tier_of(task) == 'thorough' and task['n'] == 1 and task['libs'] == 'none'): base.append(z3.Not(v))
 
         def version_stub(ex, a, m):
             k = ex.notes['reads'][-1]
